@@ -162,7 +162,7 @@ func parse(s string) ([]op, bool) {
 }
 
 // One memory LevelDB per run of `apply` would cost ~5 ms to open: a small pool is reused, each store is emptied before use
-// and replaced every 40 uses (old versions pile up in its memtable).
+// and replaced every 200 uses (old versions pile up in its memtable).
 type pooled struct {
 	st   *leveldbstore.LevelDBStore
 	uses int
@@ -172,7 +172,7 @@ var pool [1]pooled
 
 func freshStore(slot int) *leveldbstore.LevelDBStore {
 	p := &pool[slot]
-	if p.st != nil && p.uses >= 40 {
+	if p.st != nil && p.uses >= 200 {
 		p.st.Close()
 		p.st = nil
 	}
@@ -494,6 +494,6 @@ func main() {
 			"H s:05:64;s:0501:1e;p:05:64;p:0501:1e", "H s:05:64;p:05:63;p:05:64", "H s:05:64;d:05;p:05:64", "H s:05:64;p:05:64;r;p:05:64",
 			"H s:-:01;s:ff:02;p:-:01;d:ff;p:ff:02;s:00:07;p:00:07",
 		},
-		N: map[string]int{"quick": 20000, "thorough": 400000},
+		N: map[string]int{"quick": 15000, "thorough": 400000},
 	})
 }
